@@ -22,7 +22,8 @@ def main():
         atoms, keys = vlib.atoms_for_docs(data["docs"], depth, rnd, per_path=2 if quick else 5, ops_v=["==", "in", "matches"], ops_e=["empty"])
         # selectors used as the quantified collection and inside bodies (alias-rooted selectors keep their first part)
         body = [match(["v"], "==", "1"), match(["v", "x"], "==", "1"), match(["v", "0"], "==", "1"), match(["v", "V"], "==", "2"),
-                match(["v", "id"], "!=", "2"), match(["v", "attr", "k"], "==", "v"), match(["k"], "==", "a")]
+                match(["v", "id"], "!=", "2"), match(["v", "attr", "k"], "==", "v"), match(["k"], "==", "a"),
+                match(["v"], "==", "slash"), match(["v"], "==", "tilde"), match(["v"], "==", "t2"), match(["v"], "==", "bond"), match(["k"], "==", "a/b"), match(["v", "y"], "==", "nested")]
         b0 = len(atoms)
         atoms += body
         allp = []
